@@ -60,7 +60,7 @@ func drawRCase(t *rapid.T, o rOpts) rt.Case {
 			c.Ops = append(c.Ops, rt.Op{K: "plan", Kind: rapid.SampledFrom([]string{"propose", "validate", "validate", "commit", "commit", "committee"}).Draw(t, "spi"),
 				Policy: rapid.SampledFrom([]string{"hold", "ctx", "ctx", "slow"}).Draw(t, "policy")})
 		case "trigger": // what the node's own timer can produce: a trigger for its current position, or a stale one (never a future one)
-			c.Ops = append(c.Ops, rt.Op{K: "trigger", DH: rapid.SampledFrom([]int{0, 0, 0, 0, -1}).Draw(t, "dh"), DV: rapid.SampledFrom([]int{0, 0, 0, -1, -2}).Draw(t, "dv")})
+			c.Ops = append(c.Ops, rt.Op{K: "trigger", DH: rapid.SampledFrom([]int{0, 0, 0, 0, -1}).Draw(t, "dh"), DV: rapid.SampledFrom([]int{0, 0, 0, -1, -2, -99, -99}).Draw(t, "dv")})
 		case "sync":
 			c.Ops = append(c.Ops, rt.Op{K: "sync", DH: rapid.SampledFrom([]int{-2, -1, 0, 0, 1, 1, 2, 3}).Draw(t, "dh")})
 		case "oldsync": // settle, sync below the current height (DH=0: the block just below it), settle: must change nothing
@@ -391,7 +391,7 @@ func checkC19RT(r *rt.Run) *rViolation {
 
 func checkC16(r *rt.Run) *rViolation {
 	if !r.ShutdownOK {
-		return &rViolation{"shutdown-does-not-complete", fmt.Sprintf("WaitUntilShutdown did not return within 10s after the run context was cancelled (blocked gates: %d)", len(r.H.Gates.Blocked()))}
+		return &rViolation{"shutdown-does-not-complete", fmt.Sprintf("WaitUntilShutdown did not return within 50s (bound: 10s; later returns are counted as inconclusive) after the run context was cancelled (blocked gates: %d)", len(r.H.Gates.Blocked()))}
 	}
 	if r.Final.Commits != r.AfterCancel.Commits || r.Final.Rounds != r.AfterCancel.Rounds {
 		return &rViolation{"callback-after-shutdown", fmt.Sprintf("callbacks after WaitUntilShutdown returned: commits %d->%d rounds %d->%d", r.AfterCancel.Commits, r.Final.Commits, r.AfterCancel.Rounds, r.Final.Rounds)}
